@@ -109,6 +109,15 @@ class XPathToken(Token[ta.XPathTokenType]):
         elif symbol == '=>':
             if isinstance(self[1], self.registry.function_token):
                 return '%s => %s%s' % (self[0].source, self[1].symbol, self[2].source)
+            specifier = self[1]
+            if specifier.symbol in (':', 'Q{') and len(specifier) == 2 and \
+                    isinstance(specifier[1], self.registry.function_token):
+                # a prefixed or braced function name: only the name, the argument list is self[2]
+                if specifier.symbol == ':':
+                    name = '%s:%s' % (specifier[0].source, specifier[1].symbol)
+                else:
+                    name = 'Q{%s}%s' % (specifier[0].value, specifier[1].symbol)
+                return '%s => %s%s' % (self[0].source, name, self[2].source)
             return '%s => %s%s' % (self[0].source, self[1].source, self[2].source)
         elif symbol == 'if':
             return 'if (%s) then %s else %s' % (self[0].source, self[1].source, self[2].source)
